@@ -1,5 +1,6 @@
 import ShredModel.Lemmas.PExec
 import ShredModel.Lemmas.PAccept
+import ShredModel.Lemmas.PComplete
 /-!
 # C14 — a panicking system is contained
 
@@ -109,6 +110,24 @@ theorem C14_dependents_dont_run_spec {t : Task ι} {l : List (PEv ι)} {o : Bool
     (h : PTraces pan t l o) (hnd : t.sys.Nodup) (x y : ι) (hb : Before t x y) (hp : PEv.P x ∈ l) :
     PEv.F y ∉ l := dependents_dont_run h hnd x y hb hp
 
+/-- **no false alarm**: every execution the declarative semantics allows — whichever instances
+panic, however the siblings interleave — is accepted by the driver's acceptor, with the same
+outcome. -/
+theorem C14_spec_is_accepted {t : Task ι} {l : List (PEv ι)} {o : Bool} (h : PTraces pan t l o)
+    (hnd : t.sys.Nodup) : Accepted t l o := by
+  obtain ⟨r', hs, hst⟩ := ptraces_steps h hnd
+  apply (accepted_iff t l o).mpr
+  refine ⟨r', hs, PR.finalOk_of_done r' false (by cases o <;> simp [hst]), ?_⟩
+  have hp := PR.hasPanic_steps _ _ _ hs
+  rw [hasPanic_toPR] at hp
+  cases o with
+  | false =>
+    simp only [Bool.false_eq_true, ↓reduceIte] at hst
+    exact (PR.not_hasPanic_of_ok r' hst).symm
+  | true =>
+    have : ∃ s, PEv.P s ∈ l := (panicked_iff h).mp rfl
+    exact (hp.mpr (Or.inr this)).symm
+
 end Shred
 
 #print axioms Shred.accepted_iff
@@ -120,3 +139,4 @@ end Shred
 #print axioms Shred.C14_panicked_iff
 #print axioms Shred.C14_payload_source
 #print axioms Shred.C14_dependents_dont_run_spec
+#print axioms Shred.C14_spec_is_accepted
